@@ -37,6 +37,7 @@ import (
 	"sort"
 	"strconv"
 	"strings"
+	"sync/atomic"
 	"syscall"
 	"time"
 
@@ -46,6 +47,12 @@ import (
 )
 
 var phase = flag.String("phase", "all", "roundtrip|corrupt|hostile|all")
+
+// scale: 0 = quick tier under a sanitizer (5-10x slower per call: reduced generators), 1 = quick tier plain build,
+// 2 = thorough tier under a sanitizer, 3 = thorough tier plain build.  Fixed case counts per scale, never a time budget.
+var scale int
+
+func pick(v ...int) int { return v[scale] }
 
 // ---------------------------------------------------------------------------------------
 // naive references
@@ -380,7 +387,8 @@ func hexTrunc(b []byte) string {
 }
 
 // exact returns a copy of b whose capacity equals its length (a value as a store hands it out);
-// slackCopy returns a copy with 64 spare bytes of 0xAA behind it.
+// slackCopy returns a copy with 64 spare bytes behind it (4 x 0x00, then 0xAA: the code under test is known to
+// reslice up to 4 bytes into spare capacity when reading the lz4 size prefix; zeros keep that size small).
 func exact(b []byte) []byte {
 	out := make([]byte, len(b))
 	copy(out, b)
@@ -390,7 +398,7 @@ func exact(b []byte) []byte {
 func slackCopy(b []byte) []byte {
 	buf := make([]byte, len(b)+64)
 	copy(buf, b)
-	for i := len(b); i < len(buf); i++ {
+	for i := len(b) + 4; i < len(buf); i++ {
 		buf[i] = 0xAA
 	}
 	return buf[:len(b)]
@@ -401,12 +409,68 @@ type ddResult struct {
 	cf       dvid.CompressionFormat
 	err      error
 	panicked bool
+	skipped  bool
+}
+
+// declaredSize reads, as the format specification does, the output size a value asks the decoder to allocate
+// (lz4: 4-byte LE prefix; snappy: uvarint; jpeg: SOF dimensions).  Values that pass the checksum stage and declare
+// more than maxDeclared are only offered in the dedicated "huge" class (a handful of inputs), because each costs
+// seconds and gigabytes; everywhere else they are skipped and counted.
+const maxDeclared = 64 << 20
+
+var allowHuge bool
+
+func declaredSize(in []byte) uint64 {
+	if len(in) == 0 {
+		return 0
+	}
+	body := in[1:]
+	switch (in[0] >> 3) & 3 {
+	case 0:
+	case 1:
+		if len(body) < 4 || binary.LittleEndian.Uint32(body[:4]) != crc32.ChecksumIEEE(body[4:]) {
+			return 0 // rejected before any decoder runs
+		}
+		body = body[4:]
+	default:
+		return 0
+	}
+	switch in[0] >> 5 {
+	case cLZ4:
+		var pre [4]byte
+		copy(pre[:], body) // short prefixes: missing bytes come from spare capacity (zeros here) or panic
+		return uint64(binary.LittleEndian.Uint32(pre[:]))
+	case cSnappy:
+		v, k := binary.Uvarint(body)
+		if k > 0 {
+			return v
+		}
+	case cJPEG:
+		return jpegSamples(body)
+	}
+	return 0
+}
+
+func tooBig(in []byte) bool {
+	if allowHuge {
+		return false
+	}
+	if declaredSize(in) > maxDeclared {
+		p.Count("skipped_declares_more_than_64MiB(see huge class)", 1)
+		return true
+	}
+	return false
 }
 
 // callDD runs DeserializeData on in; desc (or the hex of in when desc == "") is put on disk first.
 func callDD(in []byte, unc, slack bool, desc string) (r ddResult) {
 	if desc == "" {
 		desc = fmt.Sprintf("DeserializeData(uncompress=%v, spare-capacity=%v) input_hex=%s", unc, slack, hexTrunc(in))
+	}
+	if unc && tooBig(in) {
+		r.skipped = true
+		r.err = fmt.Errorf("skipped")
+		return
 	}
 	p.Begin(desc)
 	defer func() {
@@ -422,6 +486,9 @@ func callDD(in []byte, unc, slack bool, desc string) (r ddResult) {
 func callGob(in []byte, obj interface{}, desc string) (err error, panicked bool) {
 	if desc == "" {
 		desc = fmt.Sprintf("Deserialize(%T) input_hex=%s", obj, hexTrunc(in))
+	}
+	if tooBig(in) {
+		return fmt.Errorf("skipped"), false
 	}
 	p.Begin(desc)
 	defer func() {
@@ -489,7 +556,7 @@ func mixed(r *rand.Rand, n int) []byte {
 	return b[:n]
 }
 
-func genPayloads(r *rand.Rand, quick bool) []payload {
+func genPayloads(r *rand.Rand) []payload {
 	var ps []payload
 	add := func(n string, d []byte) { ps = append(ps, payload{n, d}) }
 	add("empty", []byte{})
@@ -502,16 +569,16 @@ func genPayloads(r *rand.Rand, quick bool) []payload {
 		add(fmt.Sprintf("zeros-%d", n), make([]byte, n))
 	}
 	sizes := []int{17, 31, 32, 33, 63, 64, 65, 127, 255, 256, 257, 1000, 4095, 4096, 4097, 65535, 65536, 65537, 70000}
+	if scale == 0 {
+		sizes = []int{17, 64, 255, 4096, 65536, 70000}
+	}
 	for _, n := range sizes {
 		add(fmt.Sprintf("rand-%d", n), rnd(r, n))
 		add(fmt.Sprintf("zeros-%d", n), make([]byte, n))
 		add(fmt.Sprintf("text-%d", n), textLike(r, n))
 		add(fmt.Sprintf("pat3-%d", n), pattern(n, []byte{1, 2, 3}))
 	}
-	nrand := 40
-	if !quick {
-		nrand = 600
-	}
+	nrand := pick(8, 40, 60, 600)
 	for i := 0; i < nrand; i++ {
 		n := 1 + r.Intn(1<<uint(1+r.Intn(17)))
 		switch r.Intn(4) {
@@ -533,10 +600,12 @@ func genPayloads(r *rand.Rand, quick bool) []payload {
 	add("looks-like-lz4-header", append([]byte{0x88, 0, 0, 0, 0, 0, 0, 0, 0}, rnd(r, 20)...))
 	// multi-megabyte
 	add("rand-1MiB", rnd(r, 1<<20))
-	add("zeros-4MiB", make([]byte, 4<<20))
-	add("rand-4MiB", rnd(r, 4<<20))
 	add("mixed-4MiB", mixed(r, 4<<20))
-	if !quick {
+	if scale >= 1 {
+		add("zeros-4MiB", make([]byte, 4<<20))
+		add("rand-4MiB", rnd(r, 4<<20))
+	}
+	if scale == 3 {
 		add("rand-16MiB", rnd(r, 16<<20))
 		add("text-16MiB", textLike(r, 16<<20))
 		add("mixed-24MiB", mixed(r, 24<<20))
@@ -564,13 +633,16 @@ func headerLen(s []byte) int {
 
 func phaseRoundtrip() {
 	r := rand.New(rand.NewSource(p.Seed*7 + 1))
-	pls := genPayloads(r, p.Quick())
+	pls := genPayloads(r)
 	comps := allComps()
+	if scale == 0 {
+		comps = []comp{mkComp(cNone, -1), mkComp(cSnappy, -1), mkComp(cLZ4, -1), mkComp(cGzip, -1), mkComp(cGzip, 1), mkComp(cGzip, 9)}
+	}
 	sampled := 0
 	for _, pl := range pls {
 		big := len(pl.data) >= 1<<20
 		for _, cp := range comps {
-			if big && cp.code == cGzip && !(cp.level == -1 || cp.level == 1 || cp.level == 6 || cp.level == 9) {
+			if big && cp.code == cGzip && !(cp.level == -1 || (scale >= 1 && (cp.level == 1 || cp.level == 6 || cp.level == 9))) {
 				continue
 			}
 			for _, ck := range []dvid.Checksum{dvid.NoChecksum, dvid.CRC32} {
@@ -680,7 +752,7 @@ type gobT struct {
 
 func phaseGob(r *rand.Rand) {
 	comps := []comp{mkComp(cNone, -1), mkComp(cSnappy, -1), mkComp(cLZ4, -1), mkComp(cGzip, -1), mkComp(cGzip, 9)}
-	n := p.N(30, 400)
+	n := pick(10, 30, 60, 400)
 	for i := 0; i < n; i++ {
 		obj := gobT{A: r.Int(), B: string(textLike(r, r.Intn(200))), D: map[string]float64{}}
 		for k := r.Intn(50); k > 0; k-- {
@@ -750,7 +822,7 @@ func (c corruption) String() string {
 	return fmt.Sprintf("%s@%d", c.kind, c.pos)
 }
 
-func corruptionsFor(r *rand.Rand, s []byte, payloadLen int, quick bool) []corruption {
+func corruptionsFor(r *rand.Rand, s []byte, payloadLen int) []corruption {
 	var cs []corruption
 	n := len(s)
 	if payloadLen <= 64 {
@@ -772,10 +844,7 @@ func corruptionsFor(r *rand.Rand, s []byte, payloadLen int, quick bool) []corrup
 		return cs
 	}
 	// sampled for large values: header region densely, the rest at random offsets, ends included
-	k := 60
-	if !quick {
-		k = 400
-	}
+	k := pick(24, 60, 100, 400)
 	for i := 0; i < 12 && i < n; i++ {
 		cs = append(cs, corruption{"bit", i, r.Intn(8)}, corruption{"subinv", i, 0})
 	}
@@ -800,23 +869,31 @@ func phaseCorrupt() {
 	r := rand.New(rand.NewSource(p.Seed*7 + 2))
 	var pls []payload
 	add := func(n string, d []byte) { pls = append(pls, payload{n, d}) }
-	for _, n := range []int{1, 2, 3, 5, 8, 13, 16, 32, 64} {
+	smalls := []int{1, 2, 3, 5, 8, 13, 16, 32, 64}
+	mids := []int{100, 200, 256}
+	if scale == 0 {
+		smalls = []int{1, 2, 5, 13, 64}
+		mids = []int{200}
+	}
+	for _, n := range smalls {
 		add(fmt.Sprintf("rand-%d", n), rnd(r, n))
 	}
-	add("zeros-20", make([]byte, 20))
 	add("text-40", textLike(r, 40))
-	add("text-64", textLike(r, 64))
 	add("zeros-64", make([]byte, 64))
-	for _, n := range []int{100, 200, 256} {
+	if scale >= 1 {
+		add("zeros-20", make([]byte, 20))
+		add("text-64", textLike(r, 64))
+		add("zeros-256", make([]byte, 256))
+		add("rand-65536", rnd(r, 65536))
+	}
+	for _, n := range mids {
 		add(fmt.Sprintf("text-%d", n), textLike(r, n))
 		add(fmt.Sprintf("rand-%d", n), rnd(r, n))
 	}
-	add("zeros-256", make([]byte, 256))
 	add("text-5000", textLike(r, 5000))
 	add("mixed-70000", mixed(r, 70000))
-	add("rand-65536", rnd(r, 65536))
 	add("mixed-1MiB", mixed(r, 1<<20))
-	if !p.Quick() {
+	if scale == 3 {
 		for i := 0; i < 40; i++ {
 			n := 1 + r.Intn(256)
 			if i%2 == 0 {
@@ -829,6 +906,9 @@ func phaseCorrupt() {
 		add("rand-4MiB", rnd(r, 4<<20))
 	}
 	comps := []comp{mkComp(cNone, -1), mkComp(cSnappy, -1), mkComp(cLZ4, -1), mkComp(cGzip, -1), mkComp(cGzip, 1), mkComp(cGzip, 9)}
+	if scale == 0 {
+		comps = comps[:4]
+	}
 	sampled := 0
 	for _, pl := range pls {
 		for _, cp := range comps {
@@ -840,7 +920,7 @@ func phaseCorrupt() {
 				}
 				hl := headerLen(s)
 				stored := s[hl:]
-				for _, c := range corruptionsFor(r, s, len(pl.data), p.Quick()) {
+				for _, c := range corruptionsFor(r, s, len(pl.data)) {
 					bad := c.apply(s)
 					inPayload := (c.kind == "trunc" && c.pos >= hl) || (c.kind != "trunc" && c.pos >= hl)
 					if c.kind != "trunc" && bytes.Equal(bad, s) {
@@ -863,7 +943,7 @@ func phaseCorrupt() {
 						} else {
 							p.Count("corrupt_nocrash_only", 1)
 						}
-						if res.panicked {
+						if res.panicked || res.skipped {
 							continue
 						}
 						if res.err != nil {
@@ -979,6 +1059,9 @@ func hostile(class string, in []byte, huge bool) {
 		variants = []bool{false, true}
 	}
 	reached := false
+	ddPanicked := false
+	allowHuge = huge
+	defer func() { allowHuge = false }()
 	for _, slack := range variants {
 		for _, unc := range []bool{false, true} {
 			var buf []byte
@@ -993,8 +1076,8 @@ func hostile(class string, in []byte, huge bool) {
 			}
 			if slack {
 				full := buf[:cap(buf)]
-				for _, x := range full[len(in):] {
-					if x != 0xAA {
+				for i, x := range full[len(in):] {
+					if (i < 4 && x != 0) || (i >= 4 && x != 0xAA) {
 						p.Count("spare_capacity_overwritten", 1)
 						break
 					}
@@ -1003,7 +1086,11 @@ func hostile(class string, in []byte, huge bool) {
 			if !bytes.Equal(buf, in) {
 				p.Count("input_mutated_by_deserialize", 1)
 			}
+			if res.skipped {
+				continue
+			}
 			if res.panicked {
+				ddPanicked = true
 				p.Count("hostile_outcome_panic", 1)
 			} else if res.err != nil {
 				p.Count("hostile_outcome_error", 1)
@@ -1017,7 +1104,7 @@ func hostile(class string, in []byte, huge bool) {
 			}
 		}
 	}
-	if !huge {
+	if !huge && !ddPanicked { // Deserialize = DeserializeData + gob decoding: only the gob stage is new here
 		var g1 gobT
 		callGob(exact(in), &g1, "")
 		var g2 map[string]interface{}
@@ -1039,6 +1126,9 @@ func phaseHostile() {
 	for f := 0; f < 256; f++ {
 		for n := 0; n <= 16; n++ {
 			for fill := 0; fill < 4; fill++ {
+				if scale == 0 && (fill == 0 || fill == 2) && f%8 != 0 {
+					continue // sanitizer quick run: all four fills only for format bytes without reserved bits
+				}
 				tail := make([]byte, n)
 				switch fill {
 				case 0:
@@ -1115,7 +1205,7 @@ func phaseHostile() {
 		}
 	}
 	seeds = append(seeds, [2]interface{}{cJPEG, jg}, [2]interface{}{cJPEG, jc}, [2]interface{}{cJPEG, grayJPEG(40, 24, r)})
-	nm := p.N(12000, 300000)
+	nm := pick(3000, 12000, 30000, 300000)
 	for i := 0; i < nm; i++ {
 		sd := seeds[r.Intn(len(seeds))]
 		code, body := sd[0].(int), append([]byte{}, sd[1].([]byte)...)
@@ -1137,14 +1227,6 @@ func phaseHostile() {
 				body = append(body[:a], body[b:]...)
 			}
 		}
-		if code == cJPEG {
-			// keep image dimensions small: a damaged SOF may legally declare up to 65535x65535 samples, which is a
-			// property of image/jpeg, not of the envelope, and would only exercise the allocator
-			if bigJPEGDims(body) {
-				p.Count("hostile_skipped_jpeg_huge_dims", 1)
-				continue
-			}
-		}
 		if i%2 == 0 {
 			hostile("mutated-"+compNameCode(code), noCRC(code, body), false)
 		} else {
@@ -1152,7 +1234,7 @@ func phaseHostile() {
 		}
 	}
 	// F. random blobs
-	nb := p.N(4000, 100000)
+	nb := pick(1000, 4000, 10000, 100000)
 	for i := 0; i < nb; i++ {
 		hostile("random", rnd(r, r.Intn(1<<uint(r.Intn(10)))), false)
 	}
@@ -1172,30 +1254,31 @@ func phaseHostile() {
 	}
 	p.Count("hostile_inputs", nHostile)
 	p.Count("hostile_inputs_reaching_a_decoder", nReached)
-	p.Count("peak_rss_MiB", int(peakRSS>>20))
+	p.Count("peak_rss_MiB", int(peakRSS.Load()>>20))
 	p.Sample(map[string]interface{}{"phase": "hostile", "example_input_hex": hex.EncodeToString(withCRC(cLZ4, append(le32(300), lzBody[:10]...)))})
 }
 
 func compNameCode(code int) string { return compName([]byte{byte(code << 5)}) }
 
-// bigJPEGDims scans for a SOF marker and reports declared dimensions whose product exceeds 2^22 samples.
-func bigJPEGDims(b []byte) bool {
+// jpegSamples scans for SOF markers and returns the largest declared width*height*components.
+func jpegSamples(b []byte) uint64 {
+	var m uint64
 	for i := 0; i+9 < len(b); i++ {
 		if b[i] == 0xFF && (b[i+1] == 0xC0 || b[i+1] == 0xC1 || b[i+1] == 0xC2) {
-			h := int(b[i+5])<<8 | int(b[i+6])
-			w := int(b[i+7])<<8 | int(b[i+8])
-			if h*w > 1<<22 {
-				return true
+			h := uint64(b[i+5])<<8 | uint64(b[i+6])
+			w := uint64(b[i+7])<<8 | uint64(b[i+8])
+			if v := h * w * (uint64(b[i+9]) + 1); v > m {
+				m = v
 			}
 		}
 	}
-	return false
+	return m
 }
 
 // ---------------------------------------------------------------------------------------
 // memory guard
 
-var peakRSS uint64
+var peakRSS atomic.Uint64
 
 func rssBytes() uint64 {
 	b, err := os.ReadFile("/proc/self/statm")
@@ -1214,8 +1297,8 @@ func memoryGuard(limit uint64) {
 	go func() {
 		for {
 			r := rssBytes()
-			if r > peakRSS {
-				peakRSS = r
+			if r > peakRSS.Load() {
+				peakRSS.Store(r)
 			}
 			if r > limit {
 				fmt.Fprintf(os.Stderr, "fatal error: probe memory guard: resident set %d MiB exceeds %d MiB while deserialising\n", r>>20, limit>>20)
@@ -1228,6 +1311,12 @@ func memoryGuard(limit uint64) {
 
 func main() {
 	p = probe.New()
+	if !p.Quick() {
+		scale = 2
+	}
+	if p.Flavour == "" {
+		scale++
+	}
 	memoryGuard(24 << 30)
 	debug.SetMemoryLimit(3 << 30) // makes the collector return multi-GiB garbage promptly; not a verdict
 	if p.Flavour == "" {
